@@ -9,6 +9,10 @@
                      (pop_c, scan_ring, buffered_c), the shapes of the public functions
    2. tie_auto       the generic proof of "generated definition = model function"; lane_core (the
                      exhaustive sweep for the bit arithmetic); tie_loop / tie_wloop (loops)
+                     third pass: the C-shaped views of the decoders / validators / formatters
+                     (parse_*_c, validate_*_c, fmt_c) and of the printers, the vocabulary of the
+                     oracle calls (oreq, oview, cb_effect, onorm) with the static facts about
+                     Fsm.call_h (call_h_effect, run_cb), the handler calls (hcall)
    3. state_eqb ...  decidable comparison of states, and the deterministic families of concrete
                      states on which a FAILED tie is evaluated to find a witness (diagnosis only:
                      nothing in section 3 is used by a tie theorem)
@@ -32,6 +36,9 @@ Definition store_c (i : nat) (v : N) (s : state) : state :=
 Definition store_u (i : nat) (v : N) (s : state) : state :=
   if i <? usz s then set_ubuf (upd (ubuf s) i v) s else set_fault_flag s.
 
+(* what a status-returning function answers after a fault (the flag is set: the state is outside
+   the verified envelope, the value is irrelevant; it only has to be fixed) *)
+Definition fault_status : Z := ST_ERROR.
 (* Printing.  print_string_to_buf answers 0 / -1: print_string_c is Fsm.print_string seen that way.
    self->var (self->unsolicited_fsm.var) is, in the model, the index of a variable of the command
    the machine is processing: var_of is the descriptor get_var_by_fsm returns. *)
@@ -39,6 +46,19 @@ Definition print_string_c (f : fsm) (s : state) (t : list N) : state * Z :=
   let (s', ok) := print_string f s t in (s', if ok then 0%Z else (-1)%Z).
 Definition var_of (D : desc) (f : fsm) (s : state) : option var :=
   match cmd_of D f s with Some c => nth_error (c_vars c) (g_var f s) | None => None end.
+(* Model functions seen as the C functions that return a status (and the fixed answer after a
+   fault): next_format_var_by_fsm (true = CAT_STATUS_BUSY), print_response_test and
+   format_info_type (0 / -1).  The ties of these three C functions are stated against them. *)
+Definition next_format_var_c (D : desc) (f : fsm) (s : state) : state * Z :=
+  match cmd_of D f s with
+  | None => (set_fault_flag s, fault_status)
+  | Some _ => let (s', b) := next_format_var D f s in (s', if b then ST_BUSY else ST_OK)
+  end.
+Definition print_response_test_c (D : desc) (f : fsm) (s : state) : state * Z :=
+  match cmd_of D f s with
+  | None => (set_fault_flag s, fault_status)
+  | Some _ => let (s', ok) := print_response_test D f s in (s', if ok then 0%Z else (-1)%Z)
+  end.
 (* The model prints several strings through ONE cursor (Codec.print_pieces); C calls
    print_string_to_buf once per string, each call re-reading the position from the object.
    print_strings_cons / print_strings_nil (facts about the model only): it is the same thing. *)
@@ -78,6 +98,13 @@ Lemma put_put_cur : forall f c c' s, cu_fault c = false ->
 Proof. intros f [b p fl] [b' p' fl'] s H. cbn in H. subst fl. destruct f, fl'; reflexivity. Qed.
 Lemma put_get_cur : forall f s, put_cur f (get_cur f s) s = s.
 Proof. intros f [[] [] ? ? ? ? ? ? ? ? ?]. destruct f; reflexivity. Qed.
+(* print_string_to_buf does not touch cr_flag (C reads it again for every new line it prints; the
+   model reads it once): used by tie_split when it meets a call of print_string *)
+Lemma print_string_cr : forall f s t, k_cr (k (fst (print_string f s t))) = k_cr (k s).
+Proof.
+  intros f s t. unfold print_string. destruct (print_nstring (get_cur f s) t) as [c ok].
+  cbn [fst]. unfold put_cur. destruct (cu_fault c), f; reflexivity.
+Qed.
 Lemma print_strings_nil : forall f s, print_strings f s [] = (s, true).
 Proof. intros. unfold print_strings. cbn [print_pieces]. rewrite put_get_cur. reflexivity. Qed.
 Lemma print_strings_cons : forall f s p r,
@@ -98,9 +125,6 @@ Definition ring_store (i : nat) (f : nat * ctype -> nat * ctype) (s : state) : s
   | Some it => setu_ring (upd (u_ring (u s)) i (f it)) s
   | None => set_fault_flag s
   end.
-(* what a status-returning function answers after a fault (the flag is set: the state is outside
-   the verified envelope, the value is irrelevant; it only has to be fixed) *)
-Definition fault_status : Z := ST_ERROR.
 (* Fsm.pop_unsolicited_cmd seen as the C function: status and the two OUT-parameters *cmd, *type
    (None = not written).  This is the mapping between the C signature and the model's. *)
 Definition pop_c (D : desc) (s : state) : state * Z * option (option nat) * option ctype :=
@@ -276,6 +300,367 @@ Definition service_merge (st0 us : Z) (s : state) : Z :=
 Definition expected_service_shape : service_shape :=
   mkServiceShape expected_api_shape [BI_events_service; BI_dispatch; BI_merge].
 
+Definition format_info_type_c (D : desc) (f : fsm) (s : state) : state * Z :=
+  match var_of D f s with
+  | None => (set_fault_flag s, fault_status)
+  | Some v =>
+    match type_name (v_type v) (v_size v) with
+    | None => (s, (-1)%Z)
+    | Some tn => let (s', ok) := print_strings f s (info_pieces v tn) in
+                 (s', if ok then 0%Z else (-1)%Z)
+    end
+  end.
+
+(* print_current_cmd_full_name(self, suffix) reads self->cmd; Fsm.print_current_cmd_full_name is
+   given the descriptor.  0 / -1. *)
+Definition print_current_cmd_full_name_c (D : desc) (suffix : list N) (s : state) : state * Z :=
+  match cmd_of D ATCMD s with
+  | None => (set_fault_flag s, fault_status)
+  | Some c => let (s', ok) := print_current_cmd_full_name s c suffix in
+              (s', if ok then 0%Z else (-1)%Z)
+  end.
+(* print_string_to_buf does not store into self->cmd (CMD_PRESERVING_HELPERS of the translator) *)
+Lemma print_string_c_cmd : forall f f' s t, g_cmd f' (fst (print_string_c f s t)) = g_cmd f' s.
+Proof.
+  intros f f' s t. unfold print_string_c, print_string.
+  destruct (print_nstring (get_cur f s) t) as [c ok]. cbn [fst]. unfold put_cur.
+  destruct (cu_fault c), f, f'; reflexivity.
+Qed.
+(* a registered command, found by walking over the groups (get_command_by_index), is the element
+   of that number of Fsm.pool, which is what self->cmd = <that pointer> means in the model *)
+Lemma cmd_by_index_concat : forall gs i c, cmd_by_index gs i = Some c -> nth_error (List.concat gs) i = Some c.
+Proof.
+  induction gs as [|g gs IH]; cbn [cmd_by_index List.concat]; intros i c H; [discriminate|].
+  destruct (i <? Datatypes.length g) eqn:E.
+  - apply Nat.ltb_lt in E. rewrite nth_error_app1 by exact E. exact H.
+  - apply Nat.ltb_ge in E. rewrite nth_error_app2 by exact E. apply IH. exact H.
+Qed.
+Lemma cmd_by_index_pool : forall D i c,
+  cmd_by_index (d_groups D) i = Some c -> nth_error (pool D) i = Some c.
+Proof.
+  intros D i c H. apply cmd_by_index_concat in H. unfold pool, cmds.
+  rewrite nth_error_app1; [exact H|]. apply nth_error_Some. rewrite H. discriminate.
+Qed.
+
+(* ---- the argument decoders and range validators as parse_write_args calls them.  They are tied
+        by tools/codec_translate.py to Codec.parse_int .. / validate_int .. on (text behind the cursor,
+        storage of the variable); here: which text, which storage, and what the C function leaves in
+        the object.  The text is get_atcmd_buf(self) from self->position, the cursor moves by the
+        number of characters consumed; the status is -1 / 0 / 1 (error / last argument / a comma
+        follows); *ret is written on success only.  The storage is the slot of the variable
+        self->var points to; a variable WITHOUT a slot is an ill-formed model state: fault (that is
+        where Fsm.parse_write_args faults, before decoding). ---- *)
+Definition cur_data (D : desc) (s : state) : option (var * list N) :=
+  match var_of D ATCMD s with
+  | Some v => match nth_error (mem s) (v_slot v) with Some d => Some (v, d) | None => None end
+  | None => None
+  end.
+Definition rest_of (s : state) : list N := skipn (k_position (k s)) (cbuf s).
+Definition stat_of (p : pstat) : Z :=
+  match p with SOk true => 1%Z | SOk false => 0%Z | _ => (-1)%Z end.
+Definition scan_state (s : state) (p : pstat) (n : nat) : state :=
+  let s1 := setk_position (k_position (k s) + n) s in
+  match p with SFault => set_fault_flag s1 | _ => s1 end.
+Definition parse_num_c {V : Type} (parse : list N -> pstat * V * nat) (D : desc) (s : state)
+  : state * Z * option V :=
+  match cur_data D s with
+  | None => (set_fault_flag s, fault_status, None)
+  | Some _ =>
+    let '(pst, val, n) := parse (rest_of s) in
+    (scan_state s pst n, stat_of pst, match pst with SOk _ => Some val | _ => None end)
+  end.
+Definition parse_int_c := parse_num_c parse_int.
+Definition parse_uint_c := parse_num_c parse_uint.
+Definition parse_hex_c := parse_num_c parse_hex.
+Definition parse_buf_c (parse : list N -> list N -> bool -> nat -> bres) (D : desc) (s : state) : state * Z :=
+  match cur_data D s with
+  | None => (set_fault_flag s, fault_status)
+  | Some (v, data) =>
+    let r := parse (rest_of s) data (vaccess_beq (v_access v) RO) (v_size v) in
+    let s1 := set_mem (upd (mem s) (v_slot v) (b_data r)) (scan_state s (b_st r) (b_n r)) in
+    (match b_st r with SOk _ => setk_write_size (b_wsize r) s1 | _ => s1 end, stat_of (b_st r))
+  end.
+Definition parse_bufhex_c := parse_buf_c parse_bufhex.
+Definition parse_bufstr_c := parse_buf_c parse_bufstr.
+Definition validate_c {V : Type} (validate : bool -> nat -> V -> list N -> vres) (D : desc) (s : state) (val : V)
+  : state * Z :=
+  match cur_data D s with
+  | None => (set_fault_flag s, fault_status)
+  | Some (v, data) =>
+    match validate (vaccess_beq (v_access v) RO) (v_size v) val data with
+    | VFault => (set_fault_flag s, (-1)%Z)
+    | VErr => (s, (-1)%Z)
+    | VOk d ws => (setk_write_size ws (set_mem (upd (mem s) (v_slot v) d) s), 0%Z)
+    end
+  end.
+Definition validate_int_c := validate_c validate_int.
+Definition validate_uint_c := validate_c validate_uint.
+(* int64_t <-> uint64_t.  parse_write_args keeps the value in an int64_t local, the two unsigned
+   decoders store through (uint64_t * )&val and the value is converted back when it is passed to
+   validate_uint_range: c_u64 (c_s64 u) = u for every u < 2^64 (c_u64_s64 below) *)
+Definition c_s64 (u : N) : Z := if (u <? two64 / 2)%N then Z.of_N u else (Z.of_N u - Z.of_N two64)%Z.
+Definition c_u64 (z : Z) : N := Z.to_N (z mod Z.of_N two64).
+Lemma upd_nth_same : forall {A} (l : list A) i x, nth_error l i = Some x -> upd l i x = l.
+Proof.
+  induction l as [|a l IH]; intros [|i] x H; cbn in *; try discriminate; try reflexivity.
+  - injection H as <-. reflexivity.
+  - rewrite (IH i x H). reflexivity.
+Qed.
+
+(* what Fsm.format_test_args does with the variable: fmt_info on the cursor, then put_cur *)
+Lemma format_info_type_c_is_model : forall D f s v, var_of D f s = Some v ->
+  format_info_type_c D f s =
+  let (c1, ok) := fmt_info v (get_cur f s) in (put_cur f c1 s, if ok then 0%Z else (-1)%Z).
+Proof.
+  intros D f s v H. unfold format_info_type_c, fmt_info. rewrite H.
+  destruct (type_name (v_type v) (v_size v)).
+  - unfold print_strings. destruct (print_pieces (get_cur f s) (info_pieces v l)). reflexivity.
+  - rewrite put_get_cur. reflexivity.
+Qed.
+
+(* The five typed formatters as format_read_args calls them (tools/format_translate.py ties each to
+   Codec.fmt_var on a variable of the type it is dispatched for): fmt_c T = fmt_var on the current
+   variable of machine f, READ AS a variable of type T, run on the cursor of that machine; 0 / -1.
+   A variable without a slot in the model's memory is an ill-formed model state: fault. *)
+Definition retype (t : vtype) (v : var) : var :=
+  mkVar (v_name v) t (v_size v) (v_access v) (v_hread v) (v_hwrite v) (v_slot v).
+Definition fmt_c (t : vtype) (D : desc) (f : fsm) (s : state) : state * Z :=
+  match var_of D f s with
+  | None => (set_fault_flag s, fault_status)
+  | Some v =>
+    match nth_error (mem s) (v_slot v) with
+    | None => (set_fault_flag s, fault_status)
+    | Some data => let (c1, ok) := fmt_var (retype t v) data (get_cur f s) in
+                   (put_cur f c1 s, if ok then 0%Z else (-1)%Z)
+    end
+  end.
+Lemma fmt_var_retype : forall v data c, fmt_var (retype (v_type v) v) data c = fmt_var v data c.
+Proof. intros [] data c; reflexivity. Qed.
+(* Ties of status-returning functions that are stated up to faults (see onorm) *)
+Definition snorm (x : state * Z) : option (state * Z) := if fault (fst x) then None else Some x.
+
+(* ---- the CALL of a command handler, in C terms: which handler (write / run / read / test), the
+        command passed as first argument (a pointer value: None = NULL, Some ci = element ci of
+        Fsm.pool; the translator checks that the handler is taken from that same command), the buffer
+        pointer, the size pointer, the integer arguments.  What a call means in the model (the hreq of
+        Fsm.v) is said in HandlerTie.v.in (hreq_of_call). ---- *)
+Inductive bufref := B_atcmd | B_unsol.       (* get_atcmd_buf(self) / get_unsolicited_buf(self) *)
+Inductive posref := P_atcmd | P_unsol.       (* &self->position / &self->unsolicited_fsm.position *)
+Inductive hcall :=
+  | HC_write (c : option nat) (b : bufref) (len idx : nat)
+  | HC_run (c : option nat)
+  | HC_read (c : option nat) (b : bufref) (p : posref) (size : nat)
+  | HC_test (c : option nat) (b : bufref) (p : posref) (size : nat).
+
+(* cat_init: the pointers to the environment of the library (descriptor, io interface, mutex
+   interface) that are set from the parameter of the same name.  In the model they are the descriptor
+   D and the Section variables of Fsm.v. *)
+Inductive env_field := E_desc | E_io | E_mutex.
+
+(* ---- ORACLE CALLS (calls through the pointers of the io interface and the callbacks of the
+        variables).  A C function that makes such a call is generated as a function of the ANSWER
+        of the oracle; it answers an oview: the request made (None: no call on this path) together
+        with the object as it was when the call was made, the final object, the returned status. *)
+Inductive oreq :=
+  | QIoWrite (ch : N)          (* self->io->write(ch)                                     *)
+  | QIoRead                    (* self->io->read(&self->current_char)                     *)
+  | QVarWrite (wsize : nat)    (* self->var->write(self->var, wsize)                      *)
+  | QVarRead (f : fsm).        (* v->read(v), v = get_var_by_fsm(self, f)                 *)
+Definition oview : Type := (option (oreq * state) * state * Z)%type.
+(* what a callback of the application may do to the object while it runs (Fsm.call_h: stores into
+   the variables, cat_trigger_unsolicited_event, cat_hold_exit): everything else keeps its value *)
+Record cb_effect := mkCbEffect {
+  ce_mem : list (list N); ce_ring : list (nat * ctype); ce_tail : nat; ce_count : nat;
+  ce_hold_exit : Z; ce_fault : bool }.
+Definition cb_apply (e : cb_effect) (s : state) : state :=
+  s |> set_mem (ce_mem e) |> setu_ring (ce_ring e) |> setu_tail (ce_tail e) |> setu_count (ce_count e)
+    |> setk_hold_exit (ce_hold_exit e) |> set_fault (ce_fault e).
+(* Ties of oracle functions are stated up to faults: equal, or the fault flag is set on both sides
+   (a state with the flag set is outside the verified envelope; the C-shaped views of helper
+   functions cannot always stop where the model stops after a fault). *)
+Definition onorm (x : oview) : option oview := if fault (snd (fst x)) then None else Some x.
+Definition oview_map (g : state -> state) (x : oview) : oview := (fst (fst x), g (snd (fst x)), snd x).
+
+(* ---- What a callback of the application can do to the object, in the model: Fsm.call_h only
+        changes the fields of cb_effect (call_h_effect); run_cb runs a view (a function of the answer
+        of the callback and of its effect) against Fsm.call_h; weq: equal, or both faulted.  Used by
+        the <f>_is_view lemmas of HandlerTie.v.in. ---- *)
+Section Callbacks.
+Variable D : desc.
+Variables ioS muS hS : Type.
+Variable mu_lock : muS -> muS * bool.
+Variable mu_unlock : muS -> muS * bool.
+Variable h_call : hS -> hreq -> hS * hres.
+Local Notation world := (Fsm.world ioS muS hS).
+Local Notation st := (Fsm.st ioS muS hS).
+Local Notation set_st := (Fsm.set_st ioS muS hS).
+Local Notation call_h := (Fsm.call_h D ioS muS hS mu_lock mu_unlock h_call).
+
+(* what a callback did to the object, read off the object after the call *)
+Definition effect_of (s' : state) : cb_effect :=
+  mkCbEffect (mem s') (u_ring (u s')) (u_tail (u s')) (u_count (u s')) (k_hold_exit (k s')) (fault s').
+
+
+(* ---------- auxiliary lemmas for call_h_effect ---------- *)
+Definition framed (a b : state) : Prop := b = cb_apply (effect_of b) a.
+Lemma framed_intro : forall e a b, b = cb_apply e a -> framed a b.
+Proof.
+  intros e a b H. subst b. unfold framed. destruct e. destruct a as [[] [] ? ? ? ? ? ? ? ? ?]. reflexivity.
+Qed.
+Lemma framed_refl : forall a, framed a a.
+Proof. intros a. unfold framed. destruct a as [[] [] ? ? ? ? ? ? ? ? ?]. reflexivity. Qed.
+Lemma framed_trans : forall a b c, framed a b -> framed b c -> framed a c.
+Proof.
+  intros a b c H1 H2. unfold framed in H1, H2. apply (framed_intro (effect_of c)).
+  rewrite H2 at 1. rewrite H1. generalize (effect_of c) (effect_of b). intros e2 e1.
+  destruct a as [[] [] ? ? ? ? ? ? ? ? ?]. reflexivity.
+Qed.
+Lemma set_mem_framed : forall m s, framed s (set_mem m s).
+Proof.
+  intros m s.
+  apply (framed_intro (mkCbEffect m (u_ring (u s)) (u_tail (u s)) (u_count (u s)) (k_hold_exit (k s)) (fault s))).
+  destruct s as [[] [] ? ? ? ? ? ? ? ? ?]. reflexivity.
+Qed.
+Lemma apply_poke_framed : forall s p, framed s (apply_poke s p).
+Proof.
+  intros s p. unfold apply_poke. destruct (nth_error (mem s) (fst p)); [|apply framed_refl].
+  destruct (store_prefix l (snd p)); [|apply framed_refl]. apply set_mem_framed.
+Qed.
+Lemma fold_poke_framed : forall l s, framed s (fold_left apply_poke l s).
+Proof.
+  induction l as [|p l IH]; intros s; cbn [fold_left]; [apply framed_refl|].
+  eapply framed_trans; [apply apply_poke_framed | apply IH].
+Qed.
+Lemma push_framed : forall s ci t, framed s (fst (push_unsolicited_cmd D s ci t)).
+Proof.
+  intros s ci t. unfold push_unsolicited_cmd. destruct (ring_full D s); cbn [fst]; [apply framed_refl|].
+  destruct (u_tail (u s) <? Datatypes.length (u_ring (u s))).
+  - apply (framed_intro (mkCbEffect (mem s) (upd (u_ring (u s)) (u_tail (u s)) (ci, t))
+             (if cap D <=? S (u_tail (u s)) then 0 else S (u_tail (u s))) (S (u_count (u s)))
+             (k_hold_exit (k s)) (fault s))).
+    destruct s as [[] [] ? ? ? ? ? ? ? ? ?]. reflexivity.
+  - apply (framed_intro (mkCbEffect (mem s) (u_ring (u s))
+             (if cap D <=? S (u_tail (u s)) then 0 else S (u_tail (u s))) (S (u_count (u s)))
+             (k_hold_exit (k s)) true)).
+    destruct s as [[] [] ? ? ? ? ? ? ? ? ?]. reflexivity.
+Qed.
+Lemma hold_exit_framed : forall s z, framed s (fst (hold_exit s z)).
+Proof.
+  intros s z. unfold hold_exit. destruct (negb (k_hold (k s))); cbn [fst]; [apply framed_refl|].
+  apply (framed_intro (mkCbEffect (mem s) (u_ring (u s)) (u_tail (u s)) (u_count (u s))
+           (if (z =? ST_OK)%Z then 1%Z else (-1)%Z) (fault s))).
+  destruct s as [[] [] ? ? ? ? ? ? ? ? ?]. reflexivity.
+Qed.
+Local Notation bracket := (Fsm.bracket D ioS muS hS mu_lock mu_unlock).
+Lemma bracket_framed : forall (body : world -> world * Z),
+  (forall w, framed (st w) (st (fst (body w)))) ->
+  forall w, framed (st w) (st (fst (bracket w body))).
+Proof.
+  intros body Hb w. unfold Fsm.bracket. destruct (d_mutex D); [|apply Hb].
+  destruct (mu_lock (Fsm.mu ioS muS hS w)) as [m1 ok]. destruct ok; cbn [negb].
+  - pose proof (Hb (Fsm.logw ioS muS hS (ELock true) (Fsm.set_mu ioS muS hS m1 w))) as H.
+    destruct (body (Fsm.logw ioS muS hS (ELock true) (Fsm.set_mu ioS muS hS m1 w))) as [w2 z].
+    cbn [fst] in H. destruct (mu_unlock (Fsm.mu ioS muS hS w2)) as [m2 ok2].
+    destruct ok2; cbn [negb fst]; exact H.
+  - cbn [fst]. apply framed_refl.
+Qed.
+Lemma api_trigger_framed : forall w ci t,
+  framed (st w) (st (fst (Fsm.api_trigger D ioS muS hS mu_lock mu_unlock w ci t))).
+Proof.
+  intros w ci t. unfold Fsm.api_trigger. apply bracket_framed. intros w0.
+  pose proof (push_framed (st w0) ci t) as H.
+  destruct (push_unsolicited_cmd D (st w0) ci t) as [s' r]. exact H.
+Qed.
+Lemma api_hold_exit_framed : forall w z,
+  framed (st w) (st (fst (Fsm.api_hold_exit D ioS muS hS mu_lock mu_unlock w z))).
+Proof.
+  intros w z. unfold Fsm.api_hold_exit. apply bracket_framed. intros w0.
+  pose proof (hold_exit_framed (st w0) z) as H.
+  destruct (hold_exit (st w0) z) as [s' r]. exact H.
+Qed.
+Lemma apply_icall_framed : forall w c,
+  framed (st w) (st (Fsm.apply_icall D ioS muS hS mu_lock mu_unlock w c)).
+Proof.
+  intros w c. unfold Fsm.apply_icall. destruct c as [ci t|z].
+  - pose proof (api_trigger_framed w ci t) as H.
+    destruct (Fsm.api_trigger D ioS muS hS mu_lock mu_unlock w ci t) as [w' r]. exact H.
+  - pose proof (api_hold_exit_framed w z) as H.
+    destruct (Fsm.api_hold_exit D ioS muS hS mu_lock mu_unlock w z) as [w' r]. exact H.
+Qed.
+Lemma fold_icall_framed : forall l w,
+  framed (st w) (st (fold_left (Fsm.apply_icall D ioS muS hS mu_lock mu_unlock) l w)).
+Proof.
+  induction l as [|c l IH]; intros w; cbn [fold_left]; [apply framed_refl|].
+  eapply framed_trans; [apply apply_icall_framed | apply IH].
+Qed.
+
+(* Fsm.call_h only changes the fields of cb_effect *)
+Lemma call_h_effect : forall (w : world) (q : hreq),
+  st (fst (call_h w q)) = cb_apply (effect_of (st (fst (call_h w q)))) (st w).
+Proof.
+  intros w q. change (framed (st w) (st (fst (call_h w q)))). unfold Fsm.call_h.
+  destruct (h_call (Fsm.hs ioS muS hS w) q) as [hs' r]. cbn [fst].
+  eapply framed_trans; [|apply fold_icall_framed].
+  unfold Fsm.upd_st. apply fold_poke_framed.
+Qed.
+
+(* the request Fsm builds for a callback of the current variable, from the object at the call *)
+Definition hreq_of (q : oreq) (sc : state) : option hreq :=
+  match q with
+  | QVarWrite wsz =>
+    match g_cmd ATCMD sc, cur_data D sc with
+    | Some ci, Some (v, data) => Some (VWrite ci (k_var (k sc)) wsz data)
+    | _, _ => None
+    end
+  | QVarRead f =>
+    match g_cmd f sc with Some ci => Some (VRead f ci (g_var f sc)) | None => None end
+  | _ => None
+  end.
+(* running a view against Fsm.call_h: whether the call is made, and the object at that moment, do
+   not depend on the answer; the view is then read again with the code the callback returned and
+   with what it did to the object *)
+Definition run_cb (view : Z -> cb_effect -> state -> oview) (w : world) : world * Z :=
+  match view 0%Z (effect_of (st w)) (st w) with
+  | (Some (q, sc), s0, z0) =>
+    match hreq_of q sc with
+    | Some hq =>
+      let (w1, r) := call_h (set_st sc w) hq in
+      let '(_, s', z) := view (r_code r) (effect_of (st w1)) (st w) in (set_st s' w1, z)
+    | None => (set_st s0 w, z0)
+    end
+  | (None, s', z) => (set_st s' w, z)
+  end.
+(* equal, or the fault flag is set on both sides *)
+Definition weq (a b : world * Z) : Prop :=
+  a = b \/ (fault (st (fst a)) = true /\ fault (st (fst b)) = true).
+
+
+(* ---------- auxiliary lemmas about run_cb ---------- *)
+Lemma run_cb_none : forall (view : Z -> cb_effect -> state -> oview) (w : world),
+  fst (fst (view 0%Z (effect_of (st w)) (st w))) = None ->
+  run_cb view w = (set_st (snd (fst (view 0%Z (effect_of (st w)) (st w)))) w,
+                   snd (view 0%Z (effect_of (st w)) (st w))).
+Proof.
+  intros view w H. unfold run_cb.
+  destruct (view 0%Z (effect_of (st w)) (st w)) as [[o s'] z]. cbn [fst snd] in *. subst o. reflexivity.
+Qed.
+Lemma run_cb_some : forall (view : Z -> cb_effect -> state -> oview) (w : world) q sc hq,
+  (forall a e, fst (fst (view a e (st w))) = Some (q, sc)) ->
+  hreq_of q sc = Some hq ->
+  run_cb view w =
+  let (w1, r) := call_h (set_st sc w) hq in
+  (set_st (snd (fst (view (r_code r) (effect_of (st w1)) (st w)))) w1,
+   snd (view (r_code r) (effect_of (st w1)) (st w))).
+Proof.
+  intros view w q sc hq H Hq. unfold run_cb. pose proof (H 0%Z (effect_of (st w))) as H0.
+  destruct (view 0%Z (effect_of (st w)) (st w)) as [[o s0] z0]. cbn [fst snd] in H0. subst o.
+  rewrite Hq. destruct (call_h (set_st sc w) hq) as [w1 r].
+  destruct (view (r_code r) (effect_of (st w1)) (st w)) as [[o s'] z]. reflexivity.
+Qed.
+Lemma set_st_same : forall w : world, set_st (st w) w = w.
+Proof. intros []. reflexivity. Qed.
+End Callbacks.
+
 (* ====================================================================================== *)
 (* 2. tie_auto                                                                            *)
 (* ====================================================================================== *)
@@ -296,8 +681,7 @@ Definition expected_service_shape : service_shape :=
    definitions that are tied separately (constant tables): rewrite with their ties *)
 Ltac tie_rewrite_hook := idtac.
 
-Ltac tie_norm :=
-  cbv beta iota zeta;
+Ltac tie_cbn :=
   cbn [k u cbuf ubuf mem dis_cmd dis_grp fault gL gS gR
        set_k set_u set_cbuf set_ubuf set_mem set_dis_cmd set_dis_grp set_fault set_gL set_gS set_gR
        set_fault_flag
@@ -317,7 +701,17 @@ Ltac tie_norm :=
        setu_wafter setu_ring setu_tail setu_head setu_count
        fsm_beq ctype_beq cstate_beq ustate_beq wstate_beq vaccess_beq
        N.eqb Z.eqb Pos.eqb
-       andb orb negb fst snd Datatypes.length app];
+       ce_mem ce_ring ce_tail ce_count ce_hold_exit ce_fault
+       andb orb negb fst snd Datatypes.length app].
+(* facts recorded when an opaque helper result was introduced (tie_split): cr_flag is unchanged *)
+Ltac tie_frame :=
+  repeat match goal with
+  | H : k_cr (k ?a) = _ |- context [k_cr (k ?a)] => rewrite H
+  end.
+Ltac tie_norm :=
+  cbv beta iota zeta;
+  tie_cbn;
+  try (progress tie_frame; tie_cbn);
   rewrite ?print_strings_cons, ?print_strings_nil;
   tie_rewrite_hook.
 
@@ -336,10 +730,15 @@ Ltac tie_unfold_light :=
              is_busy is_hold hold_exit process_hold_state process_io_write_wait
              unsolicited_process_io_write_wait start_print_cmd_list cmd_list_next_cmd
              start_flush_after_ok start_flush_after set_loop_state cmd_of cmd_at
-             ring_empty ring_full txt_ERROR txt_OK
+             ring_empty ring_full txt_ERROR txt_OK txt_AT
              cap ring_store fault_status pop_c pop_unsolicited_cmd push_unsolicited_cmd
              check_unsolicited_buffers service_merge store_u next_format_var
-             print_string_c var_of print_response_test info_pieces
+             print_string_c var_of print_response_test info_pieces onorm oview_map cb_apply
+             print_response_test_c next_format_var_c format_info_type_c
+             print_current_cmd_full_name_c print_current_cmd_full_name print_cmd_form
+             cur_data rest_of stat_of scan_state parse_num_c parse_int_c parse_uint_c parse_hex_c
+             parse_buf_c parse_bufhex_c parse_bufstr_c validate_c validate_int_c validate_uint_c
+             decode_var option_map snorm
              asz usz g_pos g_buf g_cmd g_var g_index g_bsz setg_pos setg_buf setg_var setg_index].
 
 (* the scrutinee on which the evaluation of t is stuck *)
@@ -359,7 +758,7 @@ Ltac tie_stuck t :=
 
 Ltac tie_subst_if_var a := tryif is_var a then subst a else idtac.
 
-Ltac tie_split x :=
+Ltac tie_split_new x :=
   let E := fresh "E" in
   lazymatch x with
   | N.eqb ?a ?b => destruct (N.eqb_spec a b) as [E|E]; [tie_subst_if_var a|]
@@ -373,7 +772,18 @@ Ltac tie_split x :=
   | ctype_beq ?a _ => tryif is_var a then destruct a else (destruct x eqn:E)
   | cstate_beq ?a _ => tryif is_var a then destruct a else (destruct x eqn:E)
   | ustate_beq ?a _ => tryif is_var a then destruct a else (destruct x eqn:E)
+  | print_string ?f ?s ?t =>
+    let H := fresh "Hcr" in
+    pose proof (print_string_cr f s t) as H; destruct x eqn:E; try rewrite E in H; cbn [fst] in H
   | _ => destruct x eqn:E; try rewrite E in *
+  end.
+
+(* a scrutinee that was already decided on this path (it reappears when a later state is
+   normalised): the recorded equation is used again *)
+Ltac tie_split x :=
+  lazymatch goal with
+  | H : x = _ |- _ => rewrite H
+  | _ => tie_split_new x
   end.
 
 (* a leaf: both sides are setter chains.  Setters and projections are unfolded completely (both
@@ -491,6 +901,11 @@ Ltac tie_auto :=
   tie_unfold_gen;
   tie_unfold_light;
   tie_go 60.
+
+(* the same for a statement whose two sides are not headed by the functions to unfold (ties
+   stated through onorm / a view): the heads are given *)
+Tactic Notation "tie_auto_on" reference(g) reference(m) :=
+  intros; unfold g, m; tie_unfold_gen; tie_unfold_light; tie_go 80.
 
 (* ---- tie_loop: a `for` loop of cat.c translated into a structural recursion g_f_loopK over the
         model list (see for_loop in tools/handler_translate.py).  Goal (stated by hand in
@@ -645,6 +1060,40 @@ Definition diff_fst {B} (x y : state * B) : list string :=
   diff_state (fst x) (fst y) ++
   (if state_eqb (fst x) (fst y) then ["returned value"%string] else []).
 
+Definition env_field_eqb (x y : env_field) : bool :=
+  match x, y with E_desc, E_desc | E_io, E_io | E_mutex, E_mutex => true | _, _ => false end.
+Definition bufref_eqb (x y : bufref) : bool :=
+  match x, y with B_atcmd, B_atcmd | B_unsol, B_unsol => true | _, _ => false end.
+Definition posref_eqb (x y : posref) : bool :=
+  match x, y with P_atcmd, P_atcmd | P_unsol, P_unsol => true | _, _ => false end.
+Definition hcall_eqb (x y : hcall) : bool :=
+  match x, y with
+  | HC_write c b l i, HC_write c' b' l' i' =>
+    opt_eqb Nat.eqb c c' && bufref_eqb b b' && (l =? l') && (i =? i')
+  | HC_run c, HC_run c' => opt_eqb Nat.eqb c c'
+  | HC_read c b q n, HC_read c' b' q' n' | HC_test c b q n, HC_test c' b' q' n' =>
+    opt_eqb Nat.eqb c c' && bufref_eqb b b' && posref_eqb q q' && (n =? n')
+  | _, _ => false
+  end.
+Definition snorm_eqb (x y : state * Z) : bool := opt_eqb state_Z_eqb (snorm x) (snorm y).
+Definition oreq_eqb (x y : oreq) : bool :=
+  match x, y with
+  | QIoWrite a, QIoWrite b => N.eqb a b
+  | QIoRead, QIoRead => true
+  | QVarWrite a, QVarWrite b => a =? b
+  | QVarRead f, QVarRead g => fsm_beq f g
+  | _, _ => false
+  end.
+Definition ask_eqb (x y : option (oreq * state)) : bool :=
+  opt_eqb (fun a b => oreq_eqb (fst a) (fst b) && state_eqb (snd a) (snd b)) x y.
+Definition oview_eqb (x y : oview) : bool :=
+  ask_eqb (fst (fst x)) (fst (fst y)) && state_eqb (snd (fst x)) (snd (fst y)) && Z.eqb (snd x) (snd y).
+Definition onorm_eqb (x y : oview) : bool := opt_eqb oview_eqb (onorm x) (onorm y).
+Definition diff_oview (x y : oview) : list string :=
+  fld (ask_eqb (fst (fst x)) (fst (fst y))) "oracle request / object when the call is made" ++
+  diff_state (snd (fst x)) (snd (fst y)) ++
+  fld (Z.eqb (snd x) (snd y)) "returned value".
+
 (* ---- test descriptors: index 0 has three registered commands in two groups and one extra
         (event-only) command; index 1 has no command at all ---- *)
 Definition tvar (a : vaccess) : var := mkVar None VInt 1 a false false 0.
@@ -668,8 +1117,33 @@ Definition tcmd4 : cmd :=
         [mkVar (Some [120%N]) VInt 2 RW false false 0; mkVar None VHex 3 RO false false 0;
          mkVar None VBufStr 4 WO false false 0] false false false.
 Definition tdesc3 : desc := mkDesc [[tcmd4]] [] 64 None 0%N 2 false.
+(* index 4: the list printer and the TEST text.  "R" run only; "D" a description and nothing else;
+   "Q" only_test with a test handler; "W" a write-only variable; one group, then "S" in a second
+   group, read handler only *)
+Definition tcmd5 : cmd := mkCmd [82%N] None false false true false [] false false false.
+Definition tcmd6 : cmd := mkCmd [68%N] (Some [100%N]) false false false false [] false false false.
+Definition tcmd7 : cmd := mkCmd [81%N] None false false false true [] false true false.
+Definition tcmd8 : cmd := mkCmd [87%N] None false false false false [tvar WO] false false false.
+Definition tcmd9 : cmd := mkCmd [83%N] None false true false false [] false false false.
+Definition tdesc4 : desc := mkDesc [[tcmd5; tcmd6; tcmd7; tcmd8]; [tcmd9]] [] 32 None 0%N 2 false.
+(* index 5: variables of every type.  "P": write handler, six variables (with / without a write
+   callback, one read-only, one of an unsupported size); "N": need_all_vars, no write handler, a writable hex byte *)
+Definition wvar (t : vtype) (sz : nat) (a : vaccess) (hr hw : bool) (slot : nat) : var :=
+  mkVar None t sz a hr hw slot.
+Definition tcmd10 : cmd :=
+  mkCmd [80%N] None true true false false
+        [wvar VInt 1 RW true true 0; wvar VUint 2 RW false false 1; wvar VHex 4 RO true true 2;
+         wvar VBufHex 2 RW false true 3; wvar VBufStr 3 WO true false 4; wvar VInt 3 RW false false 0]
+        false false false.
+Definition tcmd11 : cmd :=
+  mkCmd [78%N] None false false false false
+        [wvar VInt 1 RW false true 0; wvar VUint 1 WO true false 1; wvar VHex 1 RW false false 3]
+        true false false.
+Definition tdesc5 : desc := mkDesc [[tcmd10; tcmd11]] [] 32 None 0%N 2 false.
 Definition tD (i : nat) : desc :=
-  match i with O => tdesc0 | 1 => tdesc1 | 2 => tdesc2 | _ => tdesc3 end.
+  match i with
+  | O => tdesc0 | 1 => tdesc1 | 2 => tdesc2 | 3 => tdesc3 | 4 => tdesc4 | _ => tdesc5
+  end.
 
 (* ---- secondary patterns: five settings of the fields that rarely interact ---- *)
 Definition base_state : state :=
@@ -827,3 +1301,95 @@ Definition states_info : list state :=
   |> vary [repeat 0%N 3; repeat 0%N 32] set_ubuf.
 Definition fam_info : list (fsm * (nat * state)) :=
   list_prod [ATCMD; UNSOL] (list_prod [3] states_info).
+
+(* ---- the flush engines: every pointer / position / phase, short buffers; answers of io->write ---- *)
+Definition states_flush : list state :=
+  [base_state; pattern 1 base_state]
+  |> vary [WB_NL true; WB_NL false; WB_MAIN] (fun b s => setu_wbuf b (setk_wbuf b s))
+  |> vary [0; 1; 2; 3] (fun p s => setu_position p (setk_position p s))
+  |> vary [WS_BEFORE; WS_MAIN; WS_AFTER] (fun x s => setu_wstate x (setk_wstate x s))
+  |> vary [(CS_AFTER_RESET, US_AFTER_RESET); (CS_AFTER_OK, US_AFTER_OK); (CS_PRINT_CMD, US_AFTER_FMT_READ)]
+          (fun x s => setu_wafter (snd x) (setk_wafter (fst x) s))
+  |> vary [[]; [65%N; 0%N]; [65%N; 66%N; 0%N; 7%N]] (fun b s => set_ubuf b (set_cbuf b s)).
+Definition fam_flush : list (Z * (nat * state)) :=
+  list_prod [0%Z; 1%Z; 2%Z; (-1)%Z] (list_prod [0] states_flush).
+(* ---- the reader: every machine state that matters, answers of io->read ---- *)
+Definition states_read : list state :=
+  [base_state; pattern 1 base_state; pattern 4 base_state]
+  |> vary [CS_IDLE; CS_PARSE_COMMAND_ARGS; CS_PARSE_PREFIX; CS_ERROR] setk_state
+  |> vary [0%N; 97%N] setk_char.
+Definition fam_read : list (option N * (nat * state)) :=
+  list_prod [None; Some 10%N; Some 97%N; Some 65%N; Some 122%N; Some 13%N; Some 200%N]
+            (list_prod [0] states_read).
+
+(* ---- the starters of the printers: every command of the descriptor on both machines, buffers too
+        short for the name / for the "=" / long enough ---- *)
+Definition states_start : list state :=
+  [base_state; pattern 1 base_state]
+  |> vary [None; Some 0; Some 1; Some 2; Some 3; Some 4] (fun c s => setu_cmd c (setk_cmd c s))
+  |> vary [repeat 7%N 1; repeat 7%N 3; repeat 7%N 4; repeat 7%N 12] (fun b s => set_ubuf b (set_cbuf b s))
+  |> vary [0; 2] (fun p s => setu_position p (setk_position p s)).
+Definition fam_start : list (fsm * (nat * state)) :=
+  list_prod [ATCMD; UNSOL] (list_prod [0; 3; 4] states_start).
+
+(* ---- the list printer (test descriptors 4 and 0): every command and form, first / later line,
+        disabled commands, buffers too short for the line ---- *)
+Definition states_list : list state :=
+  [base_state; pattern 1 base_state]
+  |> vary [0; 1; 2; 3; 4; 5] setk_index
+  |> vary [T_NONE; T_RUN; T_READ; T_WRITE; T_TEST; T_TOTAL] setk_type
+  |> vary [0; 1] setk_length
+  |> vary [[false; false; false; false; false]; [true; false; false; true; false]] set_dis_cmd
+  |> vary [repeat 7%N 2; repeat 7%N 6; repeat 7%N 9; repeat 7%N 32] set_cbuf.
+Definition fam_list : list (nat * state) := list_prod [4; 0] states_list.
+Definition states_fullname : list state :=
+  [base_state; pattern 1 base_state]
+  |> vary [None; Some 0; Some 1; Some 4] setk_cmd
+  |> vary [0; 1] setk_length
+  |> vary [0; 3] setk_position
+  |> vary [repeat 7%N 2; repeat 7%N 4; repeat 7%N 5; repeat 7%N 6; repeat 7%N 9; repeat 7%N 32] set_cbuf.
+Definition fam_fullname : list (list N * (nat * state)) :=
+  list_prod [[]; [63%N]; [61%N; 63%N]] (list_prod [4; 0] states_fullname).
+
+(* ---- the argument collector and the argument printer (test descriptor 5): every variable of both
+        commands, argument texts of every type (good, out of range, malformed, running off the
+        buffer), a memory with and without the slots; what the callback answers and does ---- *)
+Definition tmem : list (list N) := [[255%N; 2%N]; [3%N; 0%N]; [255%N; 0%N; 0%N; 128%N]; [171%N; 205%N]; [97%N; 34%N; 0%N]].
+Definition teffects : list cb_effect :=
+  [mkCbEffect tmem [(0, T_READ); (0, T_NONE)] 1 1 0%Z false;
+   mkCbEffect [[9%N]; [9%N; 9%N]] [(0, T_NONE); (0, T_NONE)] 0 0 1%Z true].
+Definition states_write_args : list state :=
+  [set_mem tmem base_state; pattern 1 base_state]
+  |> vary [None; Some 0; Some 1] setk_cmd
+  |> vary [0; 1; 2; 3; 4; 5; 6] setk_var
+  |> vary [0; 1; 5] setk_index
+  |> vary [0; 1] setk_position
+  |> vary [[53%N; 0%N]; [45%N; 55%N; 44%N; 49%N; 0%N]; [51%N; 48%N; 48%N; 0%N];
+           [48%N; 120%N; 49%N; 70%N; 44%N; 0%N]; [49%N; 65%N; 50%N; 66%N; 0%N];
+           [34%N; 97%N; 98%N; 34%N; 0%N]; [120%N; 0%N]; []; [53%N];
+           [48%N; 120%N; 70%N; 70%N; 0%N]] set_cbuf.
+Definition fam_write_args : list ((Z * cb_effect) * (nat * state)) :=
+  list_prod (list_prod [0%Z; 1%Z; (-1)%Z] teffects) (list_prod [5] states_write_args).
+
+(* ---- format_read_args / format_test_args on both machines (test descriptors 5 and 3) ---- *)
+Definition states_read_args : list state :=
+  [set_mem tmem base_state; pattern 1 base_state]
+  |> vary [None; Some 0; Some 1] (fun c s => setu_cmd c (setk_cmd c s))
+  |> vary [0; 1; 2; 3; 4; 5; 6] (fun i s => setu_var i (setk_var i s))
+  |> vary [0; 1; 5] (fun i s => setu_index i (setk_index i s))
+  |> vary [0; 3] (fun p s => setu_position p (setk_position p s))
+  |> vary [repeat 7%N 2; repeat 7%N 8; repeat 7%N 32] (fun b s => set_ubuf b (set_cbuf b s)).
+Definition fam_read_args : list ((fsm * (Z * cb_effect)) * (nat * state)) :=
+  list_prod (list_prod [ATCMD; UNSOL] (list_prod [0%Z; 1%Z; (-1)%Z] teffects))
+            (list_prod [5] states_read_args).
+Definition fam_test_args : list (fsm * (nat * state)) :=
+  list_prod [ATCMD; UNSOL] (list_prod [5; 3] states_read_args).
+
+(* ---- the handler calls: both machines, every command pointer, lengths / positions / buffer sizes ---- *)
+Definition states_call : list state :=
+  [base_state; pattern 1 base_state]
+  |> vary [None; Some 0; Some 2; Some 3] (fun c s => setu_cmd c (setk_cmd (match c with Some 3 => Some 1 | _ => c end) s))
+  |> vary [0; 2] setk_length |> vary [0; 1] setk_index
+  |> vary [0; 1] setk_position |> vary [0; 3] setu_position
+  |> vary [repeat 7%N 2; repeat 7%N 5] set_cbuf |> vary [repeat 7%N 3; repeat 7%N 6] set_ubuf.
+Definition fam_call : list (fsm * (nat * state)) := list_prod [ATCMD; UNSOL] (list_prod [0; 1] states_call).
